@@ -128,9 +128,13 @@ def run(ctx):
             kk = f[0] + ':' + f[1].split(os.sep)[0] + ('/.tmp' if '.tmp' in f[1] else '')
             dist['fault_kinds'][kk] = dist['fault_kinds'].get(kk, 0) + 1
     sample = {k: recs[0][k] for k in ('tag', 'cfg', 'gets', 'answers', 'values', 'n_mutations')} if recs else None
-    return {'evaluations': len(recs), 'distinct_nontrivial': len({(json.dumps(r['cfg'], sort_keys=True), json.dumps(r.get('point')), json.dumps(r.get('faults'))) for r in recs}),
+    res = {'evaluations': len(recs), 'distinct_nontrivial': len({(json.dumps(r['cfg'], sort_keys=True), json.dumps(r.get('point')), json.dumps(r.get('faults'))) for r in recs}),
             'rule': '12 configurations (disk / stacked disk caches on one store / column cache with 1, 2, 3-key shards / disk under columns; json, pickle, '
                     'dict, nested dict, chain and default serializers; with and without labels); every tree between two mutations of the writer, undamaged and '
                     'under fault sets (each single fault, random sets of 2-5), then two fresh processes; thorough: the recovering process dies too; '
                     'distinct by (configuration, crash point, fault set)',
             'samples': [sample], 'distribution': dist, 'violations': outv, 'mismatches': len(bad), 'shards': len(shards), 'checked': total}
+    # a writer that dies of an exception or an interrupt in the middle of generating a shard (rather than of a kill inside a file operation):
+    # later requests and later processes read complete shards only
+    from props import colmodel
+    return colmodel.add(ctx, res, 'C12', n_quick=80, n_thorough=800)
